@@ -158,8 +158,8 @@ func VxC01Trie2Operations() {
 	nkeys, nops := 2, 2
 	height := uint(8)
 	if vx.Thorough() {
-		nkeys, nops, height = 3, 4, 16
-		vx.Bound("height 16; 3 distinct arbitrary keys; 4 operations Update(k_i, v) with v arbitrary or zero (delete); Hash after every operation; symbolic probe. (Width-specific path arithmetic is decided at full 256-bit width by the VxC01BitArray* harnesses; the trie logic itself is height-generic.)")
+		nkeys, nops, height = 3, 3, 8
+		vx.Bound("height 8; 3 distinct arbitrary keys; 3 operations Update(k_i, v) with v arbitrary or zero (delete); Hash after every operation; symbolic probe. (Width-specific path arithmetic is decided at full 256-bit width by the VxC01BitArray* harnesses; the trie logic itself is height-generic.)")
 	} else {
 		vx.Bound("height 8; 2 distinct arbitrary keys; 2 operations Update(k_i, v) with v arbitrary or zero (delete); Hash after every operation; symbolic probe. (Width-specific path arithmetic is decided at full 256-bit width by the VxC01BitArray* harnesses; the trie logic itself is height-generic.)")
 	}
